@@ -390,6 +390,10 @@ func scenarioReplay(w *World, verifDir, prop string, o *Obligation, rec map[stri
 		File       string `json:"file"`    // test source under /verif/replay
 		Test       string `json:"test"`
 		Timeout    int    `json:"timeout_s"`
+		// AnyFailure: the source is a property-level demonstration that does not print the LBVC-REPRODUCED marker (a
+		// test written by an independent seed author from the property text, kept under /verif/seeded): a failing
+		// assertion of that test on the real code is the reproduction.
+		AnyFailure bool `json:"any_failure"`
 	}
 	if json.Unmarshal(data, &scs) != nil {
 		return false
@@ -411,8 +415,11 @@ func scenarioReplay(w *World, verifDir, prop string, o *Obligation, rec map[stri
 			"LBVC_INPUT="+string(inJSON), "LBVC_OBLIGATION="+o.Name)
 		rec["scenario"] = sc.File + ":" + sc.Test
 		rec["replay_output"] = tail(out, 6000)
-		if failed && strings.Contains(out, "LBVC-REPRODUCED") {
+		if failed && (strings.Contains(out, "LBVC-REPRODUCED") || (sc.AnyFailure && strings.Contains(out, "--- FAIL: "))) {
 			rec["replay"] = "reproduced on the real code by scenario " + sc.Test
+			if sc.AnyFailure {
+				rec["replay"] = "reproduced on the real code: the property-level demonstration " + sc.File + " (" + sc.Test + ") fails"
+			}
 			save()
 			return true
 		}
